@@ -433,6 +433,7 @@ func (e *Engine) verify(key string, c *Contract) *Unit {
 	}
 	u.popFrame()
 	delete(frames, u)
+	u.buildReplayTemplate(key, env, c)
 	// postconditions at every return
 	for ri, r := range fr.returns {
 		penv := &specEnv{u: u, st: r.st, old: r.st.old, vars: map[string]Val{}, pkg: p.Types, where: c.Where}
